@@ -24,6 +24,12 @@ def _note_ty(body, e, ty):
     return e
 
 
+def _freeze(x):
+    if isinstance(x, (list, tuple)):
+        return tuple(_freeze(i) for i in x)
+    return x
+
+
 def expr_place(body, place, depth=0, stop=()):
     return _note_ty(body, _expr_place(body, place, depth, stop), place.get("ty"))
 
@@ -44,6 +50,16 @@ def _expr_place(body, place, depth=0, stop=()):
             (r, pth), = tg
             if r[0] == "local" and not pth and r[1] != l and depth < MAXD:
                 return expr_local(body, r[1], depth + 1, stop)
+        idx = []
+        for pe in proj:
+            if pe["k"] == "index":
+                ie = expr_local(body, pe["local"], depth + 1, stop)
+                idx.append(_freeze(ie))
+            elif pe["k"] == "cindex":
+                idx.append(("const", pe.get("offset", pe.get("i")), "usize") if not pe.get("from_end") else ("fromend", pe.get("offset")))
+        if idx:
+            # explicit indexing: keep the index expressions so that different elements are different values
+            return ("load", targets_str(body, place), place["ty"], tuple(idx))
         return ("load", targets_str(body, place), place["ty"])
     # projections of a local value (tuple/struct fields, enum payloads)
     e = expr_local(body, l, depth + 1, stop)
